@@ -367,7 +367,10 @@ pub fn gen_recorder(rng: &mut Rng, cfg: &GenCfg) -> RecorderSpec {
             18 => Some(46160),
             _ => {
                 // longer than a 16-bit size can say (the table entry keeps only the low 16 bits)
-                if cfg.allow_large || rng.chance(1, 4) {
+                if rng.chance(1, 3) {
+                    // exactly 2^16 (or 2^17) bytes: the table entry says 0
+                    Some(if rng.chance(1, 4) { 131072 } else { 65536 })
+                } else if cfg.allow_large || rng.chance(1, 4) {
                     Some(65537 + rng.below(5000) as u32)
                 } else {
                     Some(46160)
